@@ -294,6 +294,9 @@ def tasks(quick):
 
 def replay(case):
     res = Res()
+    if case["part"] == "extra":
+        r = extra_cases(Res())
+        return [(s_, w) for s_, w, c in r.viol if c == case]
     if case["part"] == "cat":
         af = case["after"]
         cat_case(tuple(case["cat"]), case["n"], None if af is None else (af[0], tuple(af[1])), res)
@@ -301,3 +304,81 @@ def replay(case):
     ev = case["ev"]
     substate_case(case["rep"], None if ev is None else (ev[0], tuple(ev[1])), res)
     return [(s, w) for s, w, c in res.viol if c.get("S") == case.get("S")]
+
+# ----------------------------------------------------------------------------- further single cases with many modes / other quadrants
+def extra_cases(res):
+    """(a) squeezing() of a Gaussian state must reproduce the covariance of its mode, for squeezing phases in every quadrant;
+    (b) the purity flag and the pure-state formulas at small hbar with many modes (the pure-state determinant (hbar/2)^(2N)
+    is tiny there); (c) Fock-state polynomials on every pair of modes of a nine-mode register"""
+    import strawberryfields as sf
+    from mc.ref import phase as ph
+
+    # (a)
+    for r in (0.3, 0.5):
+        for phi in (0.0, 0.4, PI / 2, 2.0, 2.5, PI, -2.5, -PI / 2, -1.0):
+            res.n += 1
+            res.nt += 1
+            case = {"part": "extra", "what": "squeezing", "r": r, "phi": phi}
+            prog = sf.Program(2)
+            with prog.context as q:
+                ops.Sgate(r, phi) | q[1]
+                ops.Dgate(0.2, 0.3) | q[1]
+            with warnings.catch_warnings():
+                warnings.simplefilter("ignore")
+                st = sf.Engine("gaussian").run(prog).state
+                rr, pp = st.squeezing()[1]
+                V = np.array(st.reduced_gaussian([1])[1])
+            Vr = ph.squeezed(float(rr), float(pp))[1]
+            if np.max(np.abs(Vr - V)) > 1e-8:
+                quad = "outside-[-pi/2,pi/2]" if abs((phi + PI) % (2 * PI) - PI) > PI / 2 + 1e-9 else "inside"
+                res.violation(f"C16|squeezing|inconsistent-with-cov|{quad}", f"Gaussian state of Sgate({r}, {phi:.4g}): squeezing() returns (r, phi) = ({float(rr):.4g}, {float(pp):.4g}), the covariance of a state squeezed by that is {np.round(Vr, 4).tolist()}, the state's own covariance is {np.round(V, 4).tolist()}", case)
+    # (b)
+    old = sf.hbar
+    try:
+        for h, n in ((0.5, 9), (1.0, 17), (2.0, 9)):
+            res.n += 1
+            res.nt += 1
+            case = {"part": "extra", "what": "many-modes", "hbar": h, "modes": n}
+            sf.hbar = h
+            prog = sf.Program(n)
+            with prog.context as q:
+                ops.Thermal(0.3) | q[0]
+            with warnings.catch_warnings():
+                warnings.simplefilter("ignore")
+                st = sf.Engine("gaussian").run(prog).state
+                pure = bool(st.is_pure)
+                p1 = float(st.fock_prob([1] + [0] * (n - 1), cutoff=4))
+                p1r = float(np.real(st.reduced_dm([0], cutoff=4)[1, 1]))
+            exact = 0.3 / 1.3**2
+            if pure or abs(p1 - exact) > 1e-8 or abs(p1r - exact) > 1e-6:
+                res.violation("C16|is_pure|many-modes-small-hbar", f"hbar = {h}, {n} modes, Thermal(0.3) in mode 0 (purity 1/1.6): is_pure = {pure}, fock_prob(1,0,...) = {p1:.6f}, reduced_dm([0])[1,1] = {p1r:.6f}, exact {exact:.6f}", case)
+    finally:
+        sf.hbar = old
+    # (c)
+    n = 9
+    prog = sf.Program(n)
+    with prog.context as q:
+        for i in range(n):
+            ops.Dgate(0.02 * (i + 1), 0.1 * i) | q[i]
+    with warnings.catch_warnings():
+        warnings.simplefilter("ignore")
+        stf = sf.Engine("fock", backend_options={"cutoff_dim": 3}).run(prog).state
+        stg = sf.Engine("gaussian").run(prog).state
+    for i in range(n):
+        for j in range(i + 1, n):
+            res.n += 1
+            res.nt += 1
+            case = {"part": "extra", "what": "poly-pair", "i": i, "j": j}
+            A = np.zeros((2 * n, 2 * n))
+            A[i, j] = A[j, i] = 0.5
+            try:
+                with warnings.catch_warnings():
+                    warnings.simplefilter("ignore")
+                    mf = float(np.real(stf.poly_quad_expectation(A)[0]))
+                    mg = float(np.real(stg.poly_quad_expectation(A)[0]))
+            except Exception as e:  # noqa: BLE001
+                res.violation(f"C16|poly_quad_expectation|fock|raises|{type(e).__name__}", f"x_{i} x_{j} on a nine-mode Fock state raised {type(e).__name__}: {str(e)[:90]} (other pairs of modes are answered)", case)
+                continue
+            if abs(mf - mg) > 2e-3:
+                res.violation("C16|poly_quad_expectation|fock|value", f"<x_{i} x_{j}> on nine displaced modes: Fock {mf:.5f}, Gaussian {mg:.5f}", case)
+    return res
